@@ -101,3 +101,33 @@ fn f8_c04_morphism_preserves_degrees() {
     assert_eq!(a.morphism(&b, 1), None);
     assert!(a.morphism(&a, 1).is_some());
 }
+
+fn closes(nr_gens: usize, rels: &[&[isize]], sub: &[&[isize]], index: usize) {
+    let rels: Vec<FreeWord> = rels.iter().map(|r| FreeWord::from(r.to_vec())).collect();
+    let sub: Vec<FreeWord> = sub.iter().map(|r| FreeWord::from(r.to_vec())).collect();
+    let t = coset_table(nr_gens, &rels, &sub);
+    for row in 0..t.len() {
+        for w in &rels {
+            let mut c = row;
+            for &g in w.iter() { c = t.get(c, g).unwrap(); }
+            assert_eq!(c, row, "relator {:?} does not close at row {}", w, row);
+        }
+    }
+    for w in &sub {
+        let mut c = 0;
+        for &g in w.iter() { c = t.get(c, g).unwrap(); }
+        assert_eq!(c, 0, "subgroup generator {:?} moves row 0", w);
+    }
+    assert_eq!(t.len(), index, "wrong number of rows");
+}
+
+#[test]
+fn f9_c11_relators_close_at_every_row() {
+    closes(1, &[&[1, 1, 1]], &[&[1, 1]], 1);                 // Z3, H = <a^2> = Z3
+    closes(1, &[&[1, 1, 1, 1, 1, 1]], &[&[1, 1, 1, 1]], 2);  // Z6, H = <a^4>
+}
+
+#[test]
+fn f10_c11_base_row_survives_compaction() {
+    closes(2, &[&[1, 1], &[2, 2], &[1, 2, 1, 2, 1, 2]], &[&[-2, -2, -2]], 3);   // S3, H = <b^-3> = <b>
+}
